@@ -1026,7 +1026,15 @@ fn collect_packages_in_item(
             }
         }
         ast::Item::Package(_) | ast::Item::Import(_) | ast::Item::Interface(_) => {}
-        ast::Item::TypeAlias(_) => {}
+        ast::Item::TypeAlias(alias) => {
+            // `type Duration = time.Duration` keeps the import of `time` alive
+            if let crate::go::goty::GoType::TName { name } = &alias.ty
+                && let Some((package, _)) = name.split_once('.')
+                && imports.contains(package)
+            {
+                used.insert(package.to_string());
+            }
+        }
     }
 }
 
